@@ -467,6 +467,8 @@ impl TTS {
             match value {
                 TTSCommandValue::XPath(xpath) => {
                     let id = xpath.replace::<String>(rules_with_context, mathml)?;
+                    // the id is an attribute value in the generated markup -- author ids can contain characters that need escaping
+                    let id = id.replace('&', "&amp;").replace('<', "&lt;").replace('\'', "&apos;");
                     return Ok( format!("<{}='{}'/>", tag_and_attr, id) );
                 },
                 _ => bail!("Implementation error: found bookmark value that did not evaluate to a string"),
